@@ -3,7 +3,10 @@
    positive stay the Coq datatypes.  No Extract Constant directive is used. *)
 Require Extraction.
 Require Import ExtrOcamlBasic.
-From XtModel Require Import Base InputModel.
+From XtModel Require Import Base InputModel Utf8 MsgpackModel.
 
 Extraction Language OCaml.
-Extraction "model.ml" run_reader run_slice.
+Extraction "model.ml"
+  run_reader run_slice
+  utf8_valid utf8_encode is_scalar
+  next_value_size transcode_slice transcode_reader mm_output mm_ok msgpack_matches DEPTH_LIMIT.
